@@ -310,6 +310,41 @@ Proof.
   rewrite client_handles_S in R. cbn [set_cont] in R. rewrite <- Hlen. exact R.
 Qed.
 
+(* ------------------------------------------------------------------ responses fit the peer's MTU *)
+Lemma respond_bytes_fits : forall mk mtu mb cur,
+  (forall p m, rsp_size (mk p m) = 5 + 2 + zlen p + cont_size m) -> 9 <= mtu ->
+  rsp_size (snd (respond_bytes mk (Z.min mb (mtu - 9)) cur)) <= mtu.
+Proof.
+  intros mk mtu mb cur Hmk Hmtu. unfold respond_bytes. destruct cur as [|b|t hs].
+  - simpl. lia.
+  - unfold next_payload. destruct (Z.min mb (mtu - 9) <? zlen b) eqn:E; simpl; rewrite Hmk; simpl cont_size.
+    + unfold zlen. rewrite firstn_length. lia.
+    + apply Z.ltb_ge in E. lia.
+  - destruct (2 <=? Z.min mb (mtu - 9)); simpl; lia.
+Qed.
+
+(* every response of every handler fits the MTU of the channel it is sent on (MTU >= 11) *)
+Theorem response_fits_mtu : forall recs mtu cur q,
+  11 <= mtu -> rsp_size (snd (handle recs mtu cur q)) <= mtu.
+Proof.
+  intros recs mtu cur q Hmtu.
+  assert (Hper : 0 <= (mtu - 11) / 4 /\ 4 * ((mtu - 11) / 4) <= mtu - 11).
+  { split; [apply Z.div_pos; lia|]. pose proof (Z.mul_div_le (mtu - 11) 4). lia. }
+  assert (Hfirst : forall (hs : list Z), 4 * zlen (firstn (Z.to_nat ((mtu - 11) / 4)) hs) <= mtu - 11).
+  { intro hs. unfold zlen. rewrite firstn_length. lia. }
+  unfold handle. destruct q as [pat mc c|h mb ids c|pat mb ids c]; cbn [req_cont]; destruct c.
+  - (* search, fresh *) cbn [snd rsp_size]. specialize (Hfirst (firstn (Z.to_nat mc) (map fst (match_services recs pat)))).
+    destruct (negb _); simpl cont_size; lia.
+  - destruct cur as [|b|t hs]; cbn [snd rsp_size]; try lia. specialize (Hfirst hs). destruct (negb _); simpl cont_size; lia.
+  - simpl. lia.
+  - destruct (lookup_record h recs); [apply respond_bytes_fits; [reflexivity|lia]|simpl; lia].
+  - destruct cur as [|b|t hs]; [simpl; lia| |]; apply respond_bytes_fits; try reflexivity; lia.
+  - simpl. lia.
+  - apply respond_bytes_fits; [reflexivity|lia].
+  - destruct cur as [|b|t hs]; [simpl; lia| |]; apply respond_bytes_fits; try reflexivity; lia.
+  - simpl. lia.
+Qed.
+
 (* ------------------------------------------------------------------ many clients *)
 Lemma p_lookup_remove_same : forall c l, p_lookup c (p_remove c l) = RNone.
 Proof.
